@@ -84,7 +84,16 @@ type Contracts struct {
 	Files   []string
 	Consts  map[string]string
 	Types   map[string]string // spec type aliases: name -> Go type expression
+	Audits  []Audit
+	NonGlobal []string
 	Effects []EffectDecl
+}
+
+type Audit struct {
+	Kind   string
+	Pkg    string
+	Props  []string
+	Tables []string
 }
 
 type EffectDecl struct {
@@ -96,7 +105,7 @@ type EffectDecl struct {
 	File   string
 }
 
-var keywordRe = regexp.MustCompile(`^(type|exec|replay-input|replay-setup|pred|fun|axiom|func|extern|requires|ensures|modifies|loop|behavior|props|partial|pure|inline|ghost|assert-at|assume-at|effects|trusted|nopanic|panics-when|ensures-on-panic|package|const|lemma)\b`)
+var keywordRe = regexp.MustCompile(`^(audit|nonglobal|type|exec|replay-input|replay-setup|pred|fun|axiom|func|extern|requires|ensures|modifies|loop|behavior|props|partial|pure|inline|ghost|assert-at|assume-at|effects|trusted|nopanic|panics-when|ensures-on-panic|package|const|lemma)\b`)
 
 type rawLine struct {
 	text string
@@ -194,6 +203,22 @@ func (cs *Contracts) loadFile(path string) error {
 			cs.Specs[sf.Name] = sf
 			cs.Order = append(cs.Order, sf.Name)
 			cur = nil
+		case "nonglobal":
+			cs.NonGlobal = append(cs.NonGlobal, strings.Fields(rest)[0])
+		case "audit":
+			// audit KIND props P : table, table
+			parts := strings.SplitN(rest, ":", 2)
+			f := strings.Fields(parts[0])
+			a := Audit{Kind: f[0], Pkg: pkg}
+			for i := 1; i+1 < len(f); i++ {
+				if f[i] == "props" {
+					a.Props = strings.Split(f[i+1], ",")
+				}
+			}
+			if len(parts) == 2 {
+				a.Tables = splitList(parts[1])
+			}
+			cs.Audits = append(cs.Audits, a)
 		case "type":
 			parts := strings.SplitN(rest, "=", 2)
 			if len(parts) != 2 {
